@@ -118,7 +118,7 @@ def _gen_script(rng, idx):
 
 def cases(prop, tier, seed):
   rng = random.Random(7919 * int(seed) + 6)
-  n = 400 if tier == 'quick' else 6000
+  n = 300 if tier == 'quick' else 6000
   return [_gen_script(rng, i) for i in range(n)]
 
 
@@ -207,7 +207,10 @@ def run_case(script):
       avg = None
     if avg is None:
       avg = int(round(load * sB * SC))
-    sample[0] = {'s': 1, 'lo': int(lo), 'hi': int(hi), 'sB': sB, 'iB': int(gauges['idle']), 'hB': hB, 'avg': avg}
+    slot = {'e': 'pending-sample'}
+    ev.append(slot)
+    sample[0] = {'s': 1, 'lo': int(lo), 'hi': int(hi), 'sB': sB, 'iB': int(gauges['idle']), 'hB': hB, 'avg': avg,
+                 '_slot': slot}
 
   # ---- mock channel sinks
   chans = []
@@ -328,6 +331,40 @@ def run_case(script):
     e2.update(t=0, a=cfg['a0'], i=cfg['i0'])
     ev.append(e2)
 
+  impl = bool(script.get('impl'))
+  iev = []
+
+  def proj():
+    """projection of the real object for the code-shaped model (internal; None if unreadable)"""
+    try:
+      heap = sink._heap[1:]
+      lds = [n.load if n.load >= 0 else n.load - sink.Idle for n in heap]
+      fr = fractions.Fraction(sink._ema.value) * SC
+      po = [c for c in chans if c.open_ar is not None and not c.open_ar.ready()]
+      return {'S': sorted(e.port for e in sink._servers), 'act': [n.endpoint.port for n in heap],
+              'idle': sorted(e.port for e in sink._idle_endpoints),
+              'pend': sorted(e.port for e in sink._pending_endpoints),
+              'ch': [int(n.channel.state) for n in heap], 'dn': [1 if n.load >= 0 else 0 for n in heap],
+              'ld': [int(x) for x in lds], 'total': int(sink._total), 'drain': int(sink._total - sum(lds)),
+              'avgLo': int(math.floor(fr)), 'avgHi': int(math.ceil(fr)), 'einit': 0 if sink._ema._time == -1 else 1,
+              'opEp': [c.m for c in po], 'opLive': [1 if any(n.channel is c for n in heap) else 0 for c in po]}
+    except Exception:
+      return None
+
+  def live_of(c):
+    try:
+      return 1 if any(n.channel is c for n in sink._heap[1:]) else 0
+    except Exception:
+      return 0
+
+  def istep(op, **kw):
+    if impl:
+      loop.run_until_idle()
+      d = {'op': op, 'P': proj()}
+      d.update(kw)
+      iev.append(d)
+
+  P0 = proj() if impl else None
   reqs = []          # outstanding [rid, stack]
   nreq = [0]
   auto = [0]
@@ -356,6 +393,7 @@ def run_case(script):
     return [c for c in chans if c.open_ar is not None and not c.open_ar.ready()]
 
   def open_done(c, ok):
+    lv = live_of(c) if impl else 0
     if not c.closed_seen:
       c._state = ChannelState.Open if ok else ChannelState.Closed
     emit('OpenDone', c=c.cid, ok=1 if ok else 0)
@@ -363,6 +401,7 @@ def run_case(script):
       c.open_ar.set(True)
     else:
       c.open_ar.set_exception(Exception('open failed'))
+    istep('OpenDone', m=c.m, live=lv, ok=1 if ok else 0)
 
   def do_auto():
     n = 0
@@ -380,6 +419,23 @@ def run_case(script):
       loop.run_until_idle()
       n += 1
 
+  def finish(name, d):
+    """The Disp/Comp event sits at the instant of its adjust sample (the load_average publication): channel
+    events caused by the resize that follows come after it and carry the gauges of the returned call."""
+    sm = sample[0]
+    sample[0] = None
+    if sm:
+      slot = sm.pop('_slot')
+      d.update(sm)
+      k = ev.index(slot)
+      slot.update({'e': name, 't': now_ms(), 'a': int(gauges['active']), 'i': int(gauges['idle'])})
+      slot.update(d)
+      for e2 in ev[k + 1:]:
+        e2['a'], e2['i'] = slot['a'], slot['i']
+    else:
+      d['s'] = 0
+      emit(name, **d)
+
   def disp():
     if not open_ar.ready():
       return
@@ -389,32 +445,27 @@ def run_case(script):
     msg = MethodCallMessage(None, 'm', (), {})
     sample[0] = None
     guarded(sink.AsyncProcessRequest, stack, msg, None, {})
-    d = {'r': rid, 'c': stack.target}
-    if sample[0]:
-      d.update(sample[0])
-    else:
-      d['s'] = 0
     if stack.target >= 0:
       reqs.append([rid, stack])
-    emit('Disp', **d)
+    finish('Disp', {'r': rid, 'c': stack.target})
+    istep('Disp')
 
   def comp(idx):
     if not reqs:
       return
     rid, stack = reqs.pop(idx % len(reqs))
+    tc = chans[stack.target]
+    tlive = live_of(tc) if impl else 0
     sample[0] = None
     guarded(stack.AsyncProcessResponseMessage, MethodReturnMessage(return_value=rid))
-    d = {'r': rid}
-    if sample[0]:
-      d.update(sample[0])
-    else:
-      d['s'] = 0
-    emit('Comp', **d)
+    finish('Comp', {'r': rid})
+    istep('Put', m=tc.m, live=tlive)
 
   def adv(ms):
     loop.run_until(loop.now() + ms / 1000.0)
     loop.run_until_idle()
     emit('Tick')
+    istep('Tick')
 
   nq = [None]
   failq = [0]
@@ -445,12 +496,14 @@ def run_case(script):
       S.add(op[1])
       guarded(ss.on_join, servers[op[1]])
       emit('Join', m=op[1])
+      istep('Join', m=op[1])
     elif k == 'leave':
       if op[1] not in S:
         continue
       S.discard(op[1])
       guarded(ss.on_leave, servers[op[1]])
       emit('Leave', m=op[1])
+      istep('Leave', m=op[1])
     elif k == 'chan':
       cs = [c for c in chans if c.m == op[1]]
       if not cs:
@@ -458,8 +511,10 @@ def run_case(script):
       c = cs[-1]
       if c.open_ar is not None and not c.open_ar.ready():
         continue
+      lv = live_of(c) if impl else 0
       c._state = op[2]
       emit('Chan', c=c.cid, st=op[2])
+      istep('Flip', m=c.m, st=op[2], live=lv)
     elif k == 'opendone':
       po = pending_opens()
       if not po:
@@ -509,7 +564,10 @@ def run_case(script):
       auto[0] = save
       continue
     after()
-  return {'cfg': cfg, 'ev': ev,
+  out_impl = {}
+  if impl:
+    out_impl = {'P0': P0, 'iev': iev}
+  return {'cfg': cfg, 'ev': ev, 'impl': out_impl,
           'meta': {'errors': [list(e[1:3]) for e in loop.errors][:3], 'random': rlog[:50], 'proj': st['proj'],
                    'steady': steady_evals[0], 'raised': raised[:5]}}
 
@@ -540,5 +598,153 @@ def witness(prop, t, consumed, clause):
   return {'event': e.get('e'), 'band': [c['minL'], c['maxL']], 'min_size': c['minS'], 'max_size': c['maxS']}
 
 
+def extra_coverage(prop, tier, traces):
+  """How often the premises of the clauses were exercised by the recorded histories (diagnostic counts)."""
+  c = {'samples': 0, 'grow_premise': 0, 'shrink_premise': 0, 'ceiling_premise': 0, 'band_edge_equal': 0,
+       'size_changes_outside_samples': 0, 'contractions': 0, 'steady_phases': 0, 'raised_in_balancer': 0,
+       'projection_unreadable': 0}
+  for t in traces:
+    cfg = t['cfg']
+    m = t.get('meta', {})
+    c['steady_phases'] += m.get('steady', 0)
+    c['raised_in_balancer'] += len(m.get('raised', []))
+    c['projection_unreadable'] += 0 if m.get('proj', 1) else 1
+    pa = cfg['a0']
+    for e in t['ev']:
+      if e['e'] in ('Disp', 'Comp') and e.get('s') == 1:
+        c['samples'] += 1
+        if e['lo'] >= cfg['maxL'] and e['iB'] > 0 and e['sB'] < cfg['maxS']:
+          c['grow_premise'] += 1
+        if e['hi'] <= cfg['minL'] and e['hB'] > cfg['minS']:
+          c['shrink_premise'] += 1
+        if e['sB'] >= cfg['maxS']:
+          c['ceiling_premise'] += 1
+        if e['lo'] == e['hi'] and e['lo'] in (cfg['maxL'], cfg['minL']):
+          c['band_edge_equal'] += 1
+        if e['a'] < e['sB']:
+          c['contractions'] += 1
+      elif e['a'] != pa:
+        c['size_changes_outside_samples'] += 1
+        if e['a'] < pa and e['e'] != 'Leave':
+          c['contractions'] += 1
+      pa = e['a']
+  return {'clause_premises': c}
+
+
+# ------------------------------------------------------------------ conformance of the code with Aperture.tla
+def _gen_impl_script(rng, idx):
+  band = BANDS[idx % 3]
+  min_size = rng.choice([1, 1, 2, 3])
+  max_size = rng.choice([1, 2, 3, 4, 5])
+  members = rng.randint(1, 6)
+  jitter = rng.choice([0, 0, 7, 9])
+  live = list(range(1, members + 1))
+  gone = [m for m in range(1, 7) if m not in live]
+  ops = []
+  for _ in range(min(min_size, members)):
+    if rng.random() < 0.85:
+      ops.append(['opendone', 0, 1 if rng.random() < 0.8 else 0])
+  for _ in range(rng.randint(15, 60)):
+    q = rng.random()
+    if q < 0.3:
+      ops.append(['disp'])
+    elif q < 0.48:
+      ops.append(['comp', rng.randint(0, 5)])
+    elif q < 0.62:
+      ops.append(['adv', rng.choice([1, 500, 1000, 2000, 4000, 5000])])
+    elif q < 0.68 and gone:
+      m = rng.choice(gone)
+      gone.remove(m)
+      live.append(m)
+      ops.append(['join', m])
+    elif q < 0.74 and live:
+      m = rng.choice(live)
+      live.remove(m)
+      gone.append(m)
+      ops.append(['leave', m])
+    elif q < 0.84:
+      ops.append(['chan', rng.randint(1, 6), rng.choice([4, 4, 2, 2, 3])])
+    else:
+      ops.append(['opendone', rng.randint(0, 3), rng.choice([1, 1, 1, 0])])
+  return {'min_size': min_size, 'max_size': max_size, 'band': list(band), 'members': members,
+          'jitter': jitter, 'rseed': rng.randint(0, 1 << 30), 'ops': [['auto', 0]] + ops, 'impl': 1, 'noquiet_auto': 1}
+
+
+def replay_behaviours(prop, tier, seed):
+  """Binding of the code-shaped model to the code: seeded operation histories run on the real balancer, the
+  projection of the real object after every operation (run to quiescence) must be a successor of the model
+  operation in Aperture.tla (ApertureTrace: existential over the abstracted heap order).  Mismatch = DRIFT.
+  The same runs are also returned as property-level traces."""
+  rng = random.Random(104729 * int(seed) + 66)
+  n = 120 if tier == 'quick' else 2500
+  scripts = [_gen_impl_script(rng, i) for i in range(n)]
+  res = common.run_forked(run_case, scripts, timeout_s=CASE_TIMEOUT)
+  errs = [x['err'] for x in res if 'err' in x]
+  if errs:
+    raise RuntimeError('conformance driver failed: ' + errs[0])
+  traces = []
+  impl = []
+  idx = []
+  for s, x in zip(scripts, res):
+    o = x['ok']
+    t = {'cfg': o['cfg'], 'ev': o['ev'], 'meta': o['meta'], 'script': s}
+    traces.append(t)
+    im = o.get('impl') or {}
+    if im.get('P0') is not None and all(e['P'] is not None for e in im['iev']):
+      impl.append({'cfg': o['cfg'], 'P0': im['P0'], 'ev': im['iev']})
+      idx.append(len(traces) - 1)
+  summary = {'kind': 'code -> model conformance (implementation traces validated against Aperture.tla by TLC)',
+             'impl_traces': len(impl), 'projection_unreadable': len(traces) - len(impl), 'steps_compared': 0,
+             'drift': 0}
+  drift = []
+  if impl:
+    best = {}
+    for off in range(0, len(impl), 200):
+      part = impl[off:off + 200]
+      r, _v = tlc.validate_traces('ApertureTrace', 'ApertureTrace.cfg', part, timeout=1500)
+      for v in r.printed:
+        if isinstance(v, list) and len(v) >= 4 and v[0] == 'V':
+          k = off + v[1] - 1
+          cur = best.get(k)
+          cand = (v[2], v[3])
+          # several model branches may match a prefix: the trace conforms if any branch consumes it all
+          if cur is None or (cand[1] == 'ok' and cur[1] != 'ok') or (cand[1] == cur[1] and cand[0] > cur[0]) \
+             or (cur[1] != 'ok' and cand[1] != 'ok' and cand[0] > cur[0]):
+            best[k] = cand
+    for k, (consumed, verdict) in sorted(best.items()):
+      summary['steps_compared'] += consumed
+      if verdict != 'ok':
+        summary['drift'] += 1
+        e = impl[k]['ev'][consumed] if consumed < len(impl[k]['ev']) else None
+        drift.append({'trace': idx[k], 'step': consumed, 'verdict': verdict,
+                      'event': {a: b for a, b in (e or {}).items() if a != 'P'}, 'P': (e or {}).get('P'),
+                      'prevP': impl[k]['ev'][consumed - 1]['P'] if consumed > 0 else impl[k]['P0'],
+                      'cfg': impl[k]['cfg']})
+  return {'summary': summary, 'traces': traces, 'drift': drift}
+
+
 def models(prop, tier):
-  return []
+  q = [
+    dict(module='Aperture', cfg='Aperture_q_jit.cfg', coverage=True, may_be_unused=['Join', 'Leave', 'ChanFlip'], workers=8,
+         what='3 members static, min 1 max 2, band (0.5,2), <=2 outstanding, jitter rounds, every open/callback interleaving'),
+    dict(module='Aperture', cfg='Aperture_q_dyn.cfg', coverage=True, may_be_unused=['JitterFire'], workers=8,
+         what='3 endpoints, 2 initial, joins/leaves/channel flips/failing opens (2 env events), 1 outstanding'),
+    dict(module='Aperture', cfg='Aperture_q_steady1.cfg', workers=4,
+         what='steady traffic K=3 (put-then-get churn), band (0.5,2): <>[](InBand \\/ Pinned) under WF, every initial size/average/closed subset'),
+  ]
+  if tier == 'quick':
+    return q
+  return q + [
+    dict(module='Aperture', cfg='Aperture_q_steady2.cfg', workers=4, what='steady K=3 get-then-put, band (0.5,1.5), max 3'),
+    dict(module='Aperture', cfg='Aperture_t_dynjit.cfg', workers=8, timeout=3000,
+         what='3 endpoints dynamic (2 env events) + jitter, 2 outstanding'),
+    dict(module='Aperture', cfg='Aperture_t_dyn4.cfg', workers=8, timeout=3000,
+         what='4 endpoints, min 2 max 3, band (0.5,1.5), dynamic with Busy/Closed flips'),
+    dict(module='Aperture', cfg='Aperture_t_load4.cfg', workers=8, timeout=3000,
+         what='4 members static, min 1 max 3, 4 outstanding, jitter'),
+    dict(module='Aperture', cfg='Aperture_t_min2.cfg', workers=8, timeout=3000,
+         what='4 members, min 2 = max 2, band (0.5,1.5), jitter + one env event'),
+    dict(module='Aperture', cfg='Aperture_t_steady3.cfg', workers=4, timeout=3000, what='steady K=5, 4 members, min 2 max 3, band (0.5,1.5)'),
+    dict(module='Aperture', cfg='Aperture_t_steady4.cfg', workers=4, timeout=3000, what='steady K=5 get-first, 4 members, min 1 max 4'),
+    dict(module='Aperture', cfg='Aperture_t_steady5.cfg', workers=4, timeout=3000, what='steady K=4, 5 members, min 2 max 5'),
+  ]
